@@ -534,6 +534,42 @@ def js_escape(prog: Program) -> RuleResult:
         r.check(not can_return, f"{hook.short}#default-never-returns", site(hook), f"called as {src(c)[:60]}", "every path of the default raises",
                 f"{hook.short} can return normally (an empty or pass-only body returns None): from_json then answers a tag that names the serialiser base, or a subclass without its own "
                 f"{hook.name}, with None instead of ClassNotDeserializableError")
+    # getattr(module, name) runs the module's own __getattr__ when the name is not there (PEP 562).  The resolver converts AttributeError
+    # only, so every module-level __getattr__ of the package - the modules a tag can name - must let nothing else out.
+    RAISING = {"import_module": "ImportError / ModuleNotFoundError / ValueError", "__import__": "ImportError", "getattr": "AttributeError (fine) - or whatever the target's own hook raises",
+               "get_type_hints": "NameError", "eval": "anything", "exec": "anything", "open": "OSError"}
+    hooks = [f_ for f_ in prog.functions.values() if f_.name == "__getattr__" and f_.cls is None and f_.node in f_.module.tree.body]
+    for hk in sorted(hooks, key=lambda x: x.qual):
+        bad = None
+        parents = {}
+        for n_ in ast.walk(hk.node):
+            for ch in ast.iter_child_nodes(n_):
+                parents[ch] = n_
+
+        def converted(node) -> bool:
+            """inside a try whose handler for the raised class re-raises AttributeError"""
+            x = node
+            while x in parents:
+                p_ = parents[x]
+                if isinstance(p_, ast.Try) and x in p_.body:
+                    for h in p_.handlers:
+                        names = [src(t) for t in (h.type.elts if isinstance(h.type, ast.Tuple) else [h.type])] if h.type is not None else ["BaseException"]
+                        if any(nm.split(".")[-1] in ("ImportError", "ModuleNotFoundError", "Exception", "BaseException") for nm in names) and \
+                                any(isinstance(y, ast.Raise) and y.exc is not None and "AttributeError" in src(y.exc) for b in h.body for y in ast.walk(b)):
+                            return True
+                x = p_
+            return False
+
+        for n_ in ast.walk(hk.node):
+            if isinstance(n_, ast.Raise) and n_.exc is not None and "AttributeError" not in src(n_.exc) and not converted(n_):
+                bad = bad or (n_, f"raises {src(n_.exc)[:40]}")
+            if isinstance(n_, ast.Call) and call_name(n_) in RAISING and call_name(n_) != "getattr" and not converted(n_):
+                bad = bad or (n_, f"{call_name(n_)}() can raise {RAISING[call_name(n_)]}")
+        r.check(bad is None, f"{hk.module.name.split('.')[-1] or hk.module.name}.__getattr__#only-attribute-error", site(hk, bad[0]) if bad else site(hk), src(bad[0])[:80] if bad else "module-level __getattr__",
+                "a missing name ends in AttributeError",
+                f"the module-level __getattr__ of {hk.module.name} lets another exception out ({bad[1] if bad else ''}): a tag that names a missing attribute of that module "
+                f"('{hk.module.name}.DoesNotExist') leaves from_json with that exception instead of ClassNotFoundError - the resolver converts AttributeError only")
+    r.note(f"{len(hooks)} module-level __getattr__ hook(s) in the package")
     # every explicit raise is a documented error
     jerr = it.json_err
     for q, s in it.raised_repo:
